@@ -452,6 +452,16 @@ pub fn gen_c16(seed: u64, _index: u64) -> KPlan {
             events.push(KEv::Reconnect { link });
             events.push(KEv::Reg3 { link });
         }
+        // the link spends one or more housekeeping ticks disconnected (timed out, re-registering)
+        // before it is re-established: the controller's state for it lives on meanwhile
+        if r.chance(0.04) {
+            events.push(if r.chance(0.5) { KEv::Reconnect { link } } else { KEv::MarkForRecovery { link } });
+            for _ in 0..r.range(1, 4) {
+                events.push(KEv::Advance { ms: 1000 });
+                events.push(KEv::Tick { links_mask: 0xF });
+            }
+            events.push(KEv::Reg3 { link });
+        }
         if r.chance(0.05) {
             base_rate = *r.pick(&[0u64, 50_000, 300_000, 2_000_000, 8_000_000, 60_000_000]);
         }
